@@ -217,10 +217,12 @@ def parse_assumptions(make_output):
 # ---------------------------------------------------------------- evidence, replay, findings
 
 def write_evidence(pid, tier, seed, level, coverage, wall, violations=0, assumptions=None):
-    os.makedirs(EVID, exist_ok=True)
+    # a run against a scratch tree (bin/mutant-eval sets VERIF_REPO) must not overwrite the evidence of /repo itself
+    evid = EVID if REPO == "/repo" else os.path.join(BUILD, "evidence-scratch")
+    os.makedirs(evid, exist_ok=True)
     ev = {"property_id": pid, "tier": tier, "seed": int(seed), "level": level, "coverage": coverage,
           "assumptions": assumptions or [], "wall_s": round(wall, 2), "violations": int(violations)}
-    with open(os.path.join(EVID, pid + ".json"), "w") as f:
+    with open(os.path.join(evid, pid + ".json"), "w") as f:
         json.dump(ev, f, indent=1, sort_keys=True)
         f.write("\n")
 
